@@ -177,3 +177,13 @@ Theorem C08_total_force_coupling_zero_refuted :
     nth_error h 0 = Some (s, f) /\ s + f = 0 /\
     nth_error (tf_trace Rops true true None 0 h) 1 = Some x /\ x <> s.
 Proof. exact total_force_coupling_zero. Qed.
+
+(* The model's error flag (cvm::error raised by the dependency engine or by add_bias_force; after such an error
+   the control flow of the C++ leaves the model) is never set in a run without script events: every carrier,
+   every configuration, every first step, before and after the repairs. *)
+Theorem C08_no_error_without_script_events :
+  forall (T : Type) (O : NumOps T) (BS : Type) (fixed efix : bool) (it0 : Z) (tsfs : list Z)
+         (cfgs : list (@bias_cfg T BS)) (evs : list (@event T)),
+    no_script evs -> Forall (fun o : @out T BS => o_err o = false) (run_cfg O fixed efix it0 tsfs cfgs evs).
+Proof. exact @run_cfg_noerr. Qed.
+Print Assumptions C08_no_error_without_script_events.
